@@ -1,6 +1,8 @@
 package rt
 
 import (
+	"context"
+	"os/exec"
 	"crypto/sha256"
 	"encoding/hex"
 	"encoding/json"
@@ -125,6 +127,72 @@ func layoutCfg(mapping, modPrefix string) work.Cfg {
 	return c
 }
 
+// cliMapping: the mappings that name an id through ONE of the per-schema flags only. What the missing parts of
+// such a mapping default to is decided by main.go, not by the generator package, so these layouts go through the
+// real command line instead of the in-process driver.
+func cliMapping(mapping string) bool { return mapping == "pkgonly" || mapping == "rootonly" }
+
+func layoutFlags(mapping, modPrefix string) []string {
+	fl := []string{"-p", modPrefix + "/all", "-o", "all/all.go", "--tags", "json"}
+	switch mapping {
+	case "pkgonly":
+		fl = append(fl, "--schema-package=https://example.com/b="+modPrefix+"/pb")
+	case "rootonly":
+		fl = append(fl, "--schema-root-type=https://example.com/b=RootB")
+	}
+	return fl
+}
+
+// runLayoutCLI writes the job's files, runs the real CLI in the job's output directory and collects the Go
+// files it wrote.
+func runLayoutCLI(bin string, j work.GenJob, flags []string) *work.GenResult {
+	res := &work.GenResult{ID: j.ID, Outputs: map[string]string{}}
+	for name, text := range j.Files {
+		p := filepath.Join(j.Dir, name)
+		if err := os.MkdirAll(filepath.Dir(p), 0o755); err != nil {
+			res.Err = err.Error()
+			return res
+		}
+		if err := os.WriteFile(p, []byte(text), 0o644); err != nil {
+			res.Err = err.Error()
+			return res
+		}
+	}
+	if err := os.MkdirAll(j.OutDir, 0o755); err != nil {
+		res.Err = err.Error()
+		return res
+	}
+	args := append([]string{}, flags...)
+	for _, e := range j.Entries {
+		args = append(args, filepath.Join(j.Dir, e))
+	}
+	ctx, cancel := context.WithTimeout(context.Background(), 60*time.Second)
+	defer cancel()
+	cmd := exec.CommandContext(ctx, bin, args...)
+	cmd.Dir = j.OutDir
+	out, err := cmd.CombinedOutput()
+	if ctx.Err() != nil {
+		res.Dead, res.Panic = true, "the command did not end within 60 s"
+		return res
+	}
+	if err != nil {
+		res.Err = firstLine(string(out))
+		if strings.Contains(string(out), "panic:") || strings.Contains(string(out), "goroutine ") {
+			res.Panic = firstLine(string(out))
+		}
+		return res
+	}
+	res.OK = true
+	_ = filepath.Walk(j.OutDir, func(p string, info os.FileInfo, err error) error {
+		if err == nil && !info.IsDir() && strings.HasSuffix(p, ".go") {
+			rel, _ := filepath.Rel(j.OutDir, p)
+			res.Outputs[filepath.ToSlash(rel)] = p
+		}
+		return nil
+	})
+	return res
+}
+
 func observeOutputs(outputs map[string]string, job string) ([]obsOut, map[string]string) {
 	var outs []obsOut
 	hashes := map[string]string{}
@@ -177,7 +245,7 @@ func RunLayouts(tier, rule string) int {
 	type cfgKey struct{ graph, mapping, dirs string }
 	var cfgs []cfgKey
 	for _, g := range []string{"none", "chain", "diamond", "cycle"} {
-		for _, m := range []string{"default", "own", "samebase", "sharedsame", "shareddiff", "pkgonly"} {
+		for _, m := range []string{"default", "own", "samebase", "sharedsame", "shareddiff", "pkgonly", "rootonly"} {
 			for _, d := range []string{"flat", "sub"} {
 				cfgs = append(cfgs, cfgKey{g, m, d})
 			}
@@ -242,7 +310,8 @@ func RunLayouts(tier, rule string) int {
 	wg.Wait()
 	mc := &tlc.Result{}
 	var evs []*layoutEvent
-	var jobs []work.GenJob
+	var jobs, cliJobs []work.GenJob
+	cliFlags := map[string][]string{}
 	n := 0
 	for i, c := range cfgs {
 		r := results[i]
@@ -272,13 +341,41 @@ func RunLayouts(tier, rule string) int {
 			for _, a := range lr.Args {
 				entries = append(entries, layoutPath(a, c.dirs))
 			}
-			jobs = append(jobs, work.GenJob{ID: id, Dir: filepath.Join(sc.Dir, "in", id), Files: layoutFilesMix(c.graph, c.dirs, c.mapping == "own" || c.mapping == "samebase"), Entries: entries,
-				OutDir: filepath.Join(sc.Mod, "gen", id), Cfg: layoutCfg(c.mapping, "vscratch/gen/"+id)})
+			job := work.GenJob{ID: id, Dir: filepath.Join(sc.Dir, "in", id), Files: layoutFilesMix(c.graph, c.dirs, c.mapping == "own" || c.mapping == "samebase"), Entries: entries,
+				OutDir: filepath.Join(sc.Mod, "gen", id), Cfg: layoutCfg(c.mapping, "vscratch/gen/"+id)}
+			if cliMapping(c.mapping) {
+				cliJobs = append(cliJobs, job)
+				cliFlags[id] = layoutFlags(c.mapping, "vscratch/gen/"+id)
+			} else {
+				jobs = append(jobs, job)
+			}
 		}
 	}
 	gres, err := sc.Generate(jobs)
 	if err != nil {
 		return infra(prop, err)
+	}
+	if len(cliJobs) > 0 {
+		bin, err := sc.BuildCLI()
+		if err != nil {
+			return infra(prop, err)
+		}
+		var mu sync.Mutex
+		var cwg sync.WaitGroup
+		csem := make(chan struct{}, 16)
+		for _, j := range cliJobs {
+			cwg.Add(1)
+			csem <- struct{}{}
+			go func(j work.GenJob) {
+				defer cwg.Done()
+				defer func() { <-csem }()
+				r := runLayoutCLI(bin, j, cliFlags[j.ID])
+				mu.Lock()
+				gres[j.ID] = r
+				mu.Unlock()
+			}(j)
+		}
+		cwg.Wait()
 	}
 	for _, e := range evs {
 		g := gres[e.job]
@@ -375,6 +472,10 @@ func RunLayouts(tier, rule string) int {
 				rp := map[string]any{"property": prop, "kind": "multi-file-run", "graph": e.run.Graph, "mapping": e.run.Mapping, "dirs": e.run.Dirs,
 					"arguments": e.run.Args, "files": layoutFilesMix(e.run.Graph, e.run.Dirs, e.run.Mapping == "own" || e.run.Mapping == "samebase"), "options": layoutCfg(e.run.Mapping, "MODULE"),
 					"expected_by_model": e.Design, "observed": e.Obs, "error": e.Obs.err, "how_to_rerun": "bin/vcheck replay " + prop + " <this file>"}
+				if cliMapping(e.run.Mapping) {
+					rp["command_line"] = append([]string{"go-jsonschema"}, layoutFlags(e.run.Mapping, "MODULE")...)
+					delete(rp, "options")
+				}
 				b, _ := json.MarshalIndent(rp, "", " ")
 				p := filepath.Join(dir, fmt.Sprintf("seed%d-run%d.json", seed, r.L))
 				_ = os.WriteFile(p, b, 0o644)
